@@ -220,39 +220,76 @@ def build_harness(bins, timeout=1800):
                      env={"RUSTFLAGS": "--cfg %s" % GUARD, "CARGO_TARGET_DIR": TARGET}, timeout=timeout)
         return rc == 0, out
 
-def harness(subcmd, cases, timeout=1200, chunk=None):
+def harness(subcmd, cases, timeout=1200, chunk=None, stall=60):
     """Run cases (list of JSON-able) through the harness. Returns list of results (dicts).
     A crash of the harness process itself (abort, stack overflow) is reported for the case
-    at which output stopped as {"crash": rc}; remaining cases are re-run in a new process."""
+    at which output stopped as {"crash": rc}; remaining cases are re-run in a new process.
+    A HANG (dead-lock, endless loop) is seen by a watchdog: when the process prints no result for `stall`
+    seconds (10 s once one hang has been seen in this call) it is killed and the case it was working on is
+    reported as {"crash": "hang"}; after 20 hangs the remaining cases are not run ({"crash": "not-run-after-20-hangs"}).
+    `timeout` bounds one process as a whole."""
+    import threading, queue
     results = []
     i = 0
     n = len(cases)
+    hangs = 0
     while i < n:
+        if hangs >= 20:
+            results.extend({"crash": "not-run-after-20-hangs"} for _ in range(n - i))
+            break
         batch = cases[i:] if chunk is None else cases[i:i + chunk]
         inp = "".join(json.dumps(c) + "\n" for c in batch)
-        try:
-            p = subprocess.run([os.path.join(HARNESS_DIR, subcmd)], input=inp, stdout=subprocess.PIPE, stderr=subprocess.PIPE,
-                               text=True, timeout=timeout)
-            lines = [l[2:] for l in p.stdout.split("\n") if l.startswith("@@")]
-            rc = p.returncode
-        except subprocess.TimeoutExpired as ex:
-            so = ex.stdout or ""
-            if isinstance(so, bytes):
-                so = so.decode("utf8", "replace")
-            lines = [l[2:] for l in so.split("\n") if l.startswith("@@")]
-            # a partial last line may be present; drop unparsable
-            rc = "timeout"
-        got = []
-        for l in lines:
+        p = subprocess.Popen([os.path.join(HARNESS_DIR, subcmd)], stdin=subprocess.PIPE, stdout=subprocess.PIPE,
+                             stderr=subprocess.DEVNULL, text=True, errors="replace")
+        q = queue.Queue()
+        def feed(p=p, inp=inp):
             try:
-                got.append(json.loads(l))
+                p.stdin.write(inp)
+                p.stdin.close()
             except Exception:
+                pass
+        def read(p=p, q=q):
+            try:
+                for l in p.stdout:
+                    q.put(l)
+            except Exception:
+                pass
+            q.put(None)
+        threading.Thread(target=feed, daemon=True).start()
+        threading.Thread(target=read, daemon=True).start()
+        got = []
+        rc = None
+        t_end = time.time() + timeout
+        cur_stall = stall if hangs == 0 else min(stall, 10)
+        while True:
+            try:
+                l = q.get(timeout=max(0.1, min(cur_stall, t_end - time.time())))
+            except queue.Empty:
+                rc = "hang" if time.time() < t_end else "timeout"
+                p.kill()
                 break
+            if l is None:
+                break
+            if l.startswith("@@"):
+                try:
+                    got.append(json.loads(l[2:]))
+                except Exception:
+                    break           # torn last line of a dying process
+                if len(got) >= len(batch):
+                    break
+        try:
+            p.wait(timeout=10)
+        except Exception:
+            p.kill()
+        if rc is None:
+            rc = p.returncode
         results.extend(got)
         i += len(got)
         if len(got) < len(batch):
             # the process died or hung on case i
             results.append({"crash": rc})
+            if rc in ("hang", "timeout"):
+                hangs += 1
             i += 1
     return results
 
